@@ -18,7 +18,7 @@
    (3) serialization changes nothing except aligning each initializer tensor's own name with the name of its
        value: C03_ser_readonly (FULL). *)
 From Coq Require Import NArith List Bool Arith.
-From IRV Require Import Base.Exn C03.Model C03.Canon C03.Inv C03.Iso C03.Readonly C03.Twice C17.Top.
+From IRV Require Import Base.Exn C03.Model C03.Canon C03.Inv C03.Iso C03.Readonly C03.Twice C03.Tree C03.TreeF C03.PayFixDefs C03.IsoThm C03.IsoThmF C17.Top.
 Import ListNotations.
 Open Scope N_scope.
 
@@ -47,6 +47,41 @@ Theorem C03_ser_readonly :
                                     v_const x = Some c /\ t_name t' = v_name x).
 Proof. intros np h m h' q H. exact (ser_model_readonly np h m h' q H). Qed.
 Print Assumptions C03_ser_readonly.
+
+(* C03_iso, models whose function list is empty (nested graphs, captured outer-scope values, unsorted node
+   order, optional inputs, empty-named middle outputs, initializers included): if the unfolding of the
+   state is well formed (serializable_t: names present and unique per scope, every reference is what name
+   resolution through the scope chain gives — boolean), serialization succeeds, the proto deserializes, and
+   the new state unfolds to the SAME tree (Tree.v: every value occurrence replaced by (scope depth, index
+   among the values the scope defines), computed from object identity; names, payloads, operator ids,
+   tensors, order kept) and satisfies the invariant (so the derived links correspond as well). *)
+Theorem C03_iso_graphs :
+  forall np h m, serializable_t np h m = true ->
+    exists h1 q h2 m2,
+      ser_model np h m = Ok (h1, q) /\ deser_model q = Ok (h2, m2) /\
+      (forall f, (ser_fuel h < f)%nat -> unfold_graph [] f h2 [] (m_graph m2) = unfold_root np h (m_graph m)) /\
+      m_tok m2 = m_tok m /\ m_funcs m2 = [] /\ Inv h2.
+Proof. exact iso_graphs. Qed.
+Print Assumptions C03_iso_graphs.
+
+(* C03_iso, whole models (main graph, nested graphs, model-local functions): same statement with the unfolding
+   of the model (TreeF.v).  serializable_tm = the leaf normalisation table is sane (np_ok) and the unfolding is
+   well formed (wf_m). *)
+Theorem C03_iso :
+  forall np h m, serializable_tm np h m = true ->
+    exists h1 q h2 m2,
+      ser_model np h m = Ok (h1, q) /\ deser_model q = Ok (h2, m2) /\
+      unfold_model [] h2 m2 = unfold_model np h m /\ Inv h2.
+Proof. exact iso_model. Qed.
+Print Assumptions C03_iso.
+
+(* serialize, deserialize, serialize again: the same proto (np_idem: the leaf normalisation is idempotent) *)
+Theorem C03_ser_deser_ser :
+  forall np h m, serializable_tm np h m = true -> np_idem np = true ->
+    exists h1 q h2 m2 h3,
+      ser_model np h m = Ok (h1, q) /\ deser_model q = Ok (h2, m2) /\ ser_model np h2 m2 = Ok (h3, q).
+Proof. exact ser_deser_ser. Qed.
+Print Assumptions C03_ser_deser_ser.
 
 (* Whatever the state serialized, if the proto deserializes, the result satisfies the invariant. *)
 Theorem C03_roundtrip_consistent_partial :
